@@ -498,15 +498,28 @@ func runC19(c *Ctx) error {
 					break
 				}
 			}
-			// (d) origin invariance (sub-image of a larger parent at a non-zero origin), except the YCbCr fast paths (C20)
-			if k != "YCbCr444" {
+			// (d) origin invariance (sub-image of a larger parent at a non-zero origin); since fix 42a0df6 also for the YCbCr fast path
+			{
 				ox, oy := 1+c.Rng.Intn(40), 1+c.Rng.Intn(40)
 				img2 := mkImage(k, s, s, ox, oy, true, f)
 				var w2 []uint64
 				var e2 error
 				p2, fr2, _ := safely(func() { w2, e2 = fn.f(img2) })
 				c.Stat("spec.origin")
-				if p2 || e2 != nil || joinU(w2) != joinU(words) {
+				differs := joinU(w2) != joinU(words)
+				if differs && k == "YCbCr444" && !p2 && e2 == nil {
+					// at the origin the assembly converts, elsewhere the portable code: the two agree within C20's tolerance, so
+					// only coefficients away from the threshold must give the same bit
+					thr := (loM + hiM) / 2
+					t2 := 3e-5*l1 + 1e-3 + 0.02*l1
+					differs = false
+					for i, v := range ref {
+						if bitOf(words, i) != bitOf(w2, i) && math.Abs(v-thr) > t2 && !(v >= loM-t2 && v <= hiM+t2) {
+							differs = true
+						}
+					}
+				}
+				if p2 || e2 != nil || differs {
 					c.Violate(Case{Entry: fn.name, Input: fmt.Sprintf("%s %s sub-image at (%d,%d)", k, cname, ox, oy), Expected: joinU(words), Actual: fmt.Sprint(joinU(w2), " panic=", p2, " err=", e2), Kind: map[bool]string{true: "panic", false: "wrong-value"}[p2], Frame: fr2, Class: "origin-dependent"})
 				}
 			}
